@@ -268,12 +268,15 @@ let process_def (id : string) (lines : string list) ~(artifacts : bool) =
     | _ -> failwith ("bad line " ^ line)) lines;
   let d = List.rev !tops in
   pr "DEF %s\n" id;
-  pr "WF %d\n" (if spec_wf d then 1 else 0);
+  pr "WF %d\n" (if spec_wf d && model_hyps d then 1 else 0);
   let rss = spec_rulesets d in
   (match model_compile d with
    | Panic t -> pr "PANIC %s\n" (tag_name t)
    | Ok c ->
-       if artifacts then print_artifacts c;
+       if artifacts then begin
+         print_artifacts c;
+         pr "MODELCERTS %d\n" (if model_certs c then 1 else 0)
+       end;
        List.iteri (fun i (ctor, input) ->
          pr "RUN %d %d\n" i ctor;
          run_model c.c_program !kinds input (ctor < 2);
@@ -486,9 +489,9 @@ let check_dump (id : string) (lines : string list) =
            let nfa = parse_nfa () in
            let m = parse_map () in
            let d = parse_dfa () in
-           pr "CERT %s targets=%d nranges=%d dranges=%d closed=%d states=%d\n" kind
+           pr "CERT %s targets=%d nranges=%d dranges=%d closed=%d shape=%d states=%d\n" kind
              (b (nfa_targets_ok_b nfa)) (b (nfa_ranges_wf_b nfa)) (b (dfa_wf_b d)) (b (dfa_closed_b nfa d m))
-             (List.length d)
+             (b (dfa_shape_ok_b d)) (List.length d)
        | "BACKTRACK" :: _ ->
            incr i;
            let d = parse_dfa () in
